@@ -900,7 +900,14 @@ fn run_one(ctx: &mut Ctx, rep: &mut Reporter, case: &Case, corpus: &[vf_core::Co
                             } else {
                                 got == &mine[..]
                             };
-                            if !eq_mine && theirs.is_some() {
+                            let eq_theirs = theirs.map(|th| {
+                                if r.tag == HEAD && th.len() >= 12 {
+                                    got.len() == th.len() && got[..8] == th[..8] && got[12..] == th[12..]
+                                } else {
+                                    got == &th[..]
+                                }
+                            });
+                            if !eq_mine && eq_theirs == Some(true) {
                                 overrode.push(tag_str(r.tag));
                             }
                         }
